@@ -152,11 +152,15 @@ func (cs corruptSpec) apply(valid []byte) []byte {
 		b := make([]byte, cs.Len)
 		r.Read(b)
 		return b
-	case "badend":
-		// magic codec: header 30 = the payload is delivered, then Read reports an error
+	case "badend", "sticky":
+		// magic codec: header 30 = the payload is delivered, then Read reports an error;
+		// header 29 = a clean stream after which Reset(nil) fails
 		b := make([]byte, 1+cs.Len)
 		r.Read(b)
 		b[0] = 30
+		if cs.Mode == "sticky" {
+			b[0] = 29
+		}
 		return b
 	case "gzhdr":
 		b := make([]byte, 10+cs.Len)
